@@ -5,7 +5,7 @@ import importlib
 prop=sys.argv[1]; n=int(sys.argv[2]); tier=sys.argv[3] if len(sys.argv)>3 else "quick"
 m=importlib.import_module(f"rtmon.props.{prop}")
 cases=m.gen_cases(tier,int(sys.argv[4]) if len(sys.argv)>4 else 0)[:n]
-recs=orchestrator.run_cases(prop,cases,workers=14,case_timeout=300,progress=False,quiescence_after=getattr(m,"QUIESCENCE_AFTER",None))
+recs=orchestrator.run_cases(prop,cases,workers=14,case_timeout=300,progress=False,quiescence_after=getattr(m,"QUIESCENCE_AFTER",None),quiescence_scope=getattr(m,"QUIESCENCE_SCOPE","tree"))
 c=collections.Counter(); ex={}
 for r in recs:
     if "res" not in r: c["NORES "+str({k:str(v)[:300] for k,v in r.items() if k!="case"})]+=1; continue
